@@ -342,7 +342,9 @@ def c18_l1(F, X, rep, bodies):
             okt = is_cs(typ_e)
             rep.ob("C18-L1", okt, fn, "typ is the BigSize just read", where=p.loc, how=show(typ_e)[:80], detail="" if okt else "typ = %s" % show(typ_e)[:100])
             v = _peel(val_e)
-            okv = v[0] == "call" and v[1] == "bytes::Buf::copy_to_bytes" and len(v[2]) == 2 and is_cs(v[2][1])
+            if v[0] == "field" and v[1] == "0" and v[4][0] == "call" and v[4][1].endswith("<impl [T]>::split_at"):
+                v = v[4]                    # `let (value, rest) = b.split_at(len)`: the first len bytes of the input
+            okv = v[0] == "call" and (v[1] == "bytes::Buf::copy_to_bytes" or v[1].endswith("<impl [T]>::split_at")) and len(v[2]) == 2 and is_cs(v[2][1])
             rep.ob("C18-L1", okv, fn, "value is copy_to_bytes(len) with len the second BigSize", where=p.loc, how=show(val_e)[:100],
                    detail="" if okv else "value = %s" % show(val_e)[:140])
             if okt and okv:
